@@ -109,6 +109,9 @@ def run(c):
         return any(a[1][3] == t[3] for a in again)
     c.triage(mism, classify, confirm)
     # ---- binding self-test: corrupt one logged field of two recorded events; TLC must reject exactly those
+    if c.violations:
+        c.cov["binding_selftest"] = "skipped: the run already reports violations"
+        return _finish_cov(c, events, cases)
     badidx = {m[0] for m in mism}
     clean = [x for i, x in enumerate(events) if i not in badidx and '"panic":false' in x]
     ea = next(json.loads(x) for x in clean if x.startswith('{"op":"PcoRoundTrip"') and '"contents":[' in x and '"contents":[]' not in x)
@@ -125,6 +128,10 @@ def run(c):
     if got != [(0, "round-trip"), (2, "bitmap"), (3, "contents-not-in-input")] and got != [(0, "round-trip"), (2, "bitmap"), (3, "contents-not-in-input"), (3, "exact-input-refused")]:
         raise Infra("binding self-test failed: corrupted events were judged %r" % (got,))
     c.cov["binding_selftest"] = "3 corrupted recorded events (one contents octet, one bitmap entry, one input octet) rejected by TLC, the untouched event accepted"
+    return _finish_cov(c, events, cases)
+
+
+def _finish_cov(c, events, cases):
     for d in sorted(c._c16_div):
         c.note("information (not a verdict): %s - input class '%s' (at least %d observations)" % (
             {"accepted": "UnMarshal returns no error on an inexact input", "unitsDropped": "UnMarshal does not deliver every complete unit of an inexact input"}.get(d[0], d[0]), d[1], c._c16_div[d]))
